@@ -167,7 +167,17 @@ class WebProcessorSession(BaseProcessorSession):
                 url_record.url_info.scheme == 'http':
             return
 
-        request.fields['Referer'] = url_record.parent_url
+        if url_record.parent_url_info.userinfo:
+            # No user name or password in a referrer (rfc7231 section 5.5.2)
+            request.fields['Referer'] = '{}://{}{}{}'.format(
+                url_record.parent_url_info.scheme,
+                url_record.parent_url_info.hostname_with_port,
+                url_record.parent_url_info.path,
+                '?' + url_record.parent_url_info.query
+                if url_record.parent_url_info.query else '',
+            )
+        else:
+            request.fields['Referer'] = url_record.parent_url
 
     @asyncio.coroutine
     def process(self):
